@@ -234,3 +234,16 @@ impl ResourceAllocator {
         }
     }
 }
+
+#[cfg(feature = "verif")]
+impl ResourceAllocator {
+    /// Read-only view of the allocator for the simulation harness (feature `verif`).
+    pub(crate) fn verif_snapshot(
+        &self,
+    ) -> crate::internal::worker::resources::verif::AllocatorSnapshot {
+        crate::internal::worker::resources::verif::AllocatorSnapshot {
+            pools: self.pools.iter().map(|p| p.verif_snapshot()).collect(),
+            concise: self.free_resources.verif_snapshot(),
+        }
+    }
+}
